@@ -34,7 +34,10 @@ type harnessFile struct {
 }
 
 func readHarnessFiles(prop string) ([]*harnessFile, error) {
-	dir := filepath.Join(verifDir, "harness", prop)
+	return readHarnessFilesFrom(filepath.Join(verifDir, "harness", prop), "")
+}
+
+func readHarnessFilesFrom(dir string, onlyName string) ([]*harnessFile, error) {
 	ents, err := os.ReadDir(dir)
 	if err != nil {
 		return nil, err
@@ -42,6 +45,9 @@ func readHarnessFiles(prop string) ([]*harnessFile, error) {
 	var out []*harnessFile
 	for _, e := range ents {
 		if !strings.HasSuffix(e.Name(), ".go") {
+			continue
+		}
+		if onlyName != "" && e.Name() != onlyName {
 			continue
 		}
 		b, err := os.ReadFile(filepath.Join(dir, e.Name()))
@@ -94,6 +100,25 @@ func cmdCheck(args []string) int {
 	if err != nil || len(hfiles) == 0 {
 		fmt.Fprintf(os.Stderr, "check: no harness files for %s: %v\n", *prop, err)
 		return 2
+	}
+	// shared harness files requested with //verif:use <name>
+	seenUse := map[string]bool{}
+	for _, h := range append([]*harnessFile{}, hfiles...) {
+		for _, line := range strings.Split(string(h.content), "\n") {
+			if strings.HasPrefix(line, "//verif:use ") {
+				name := strings.TrimSpace(strings.TrimPrefix(line, "//verif:use "))
+				if seenUse[name] {
+					continue
+				}
+				seenUse[name] = true
+				more, err := readHarnessFilesFrom(filepath.Join(verifDir, "harness", "common"), name+".go")
+				if err != nil {
+					fmt.Fprintln(os.Stderr, "check: cannot read common harness", name, err)
+					return 2
+				}
+				hfiles = append(hfiles, more...)
+			}
+		}
 	}
 	overlay := map[string][]byte{}
 	pkgs := map[string]string{} // pkgDir -> pkgName
@@ -586,7 +611,7 @@ func writeEvidence(prop, tier string, seed int, reports []*HarnessReport, nat *n
 		"bounds":                        bounds,
 		"harnesses":                     harnesses,
 		"queries":                       map[string]int64{"sat": gStats.Sat, "unsat": gStats.Unsat, "unknown": gStats.Unknown},
-		"cross_check_queries":           map[string]int64{"sat": gStats.XSat, "unsat": gStats.XUnsat, "no_opinion": gStats.XUnknown},
+		"cross_check_queries":           map[string]int64{"sat": gStats.XSat, "unsat": gStats.XUnsat, "no_opinion": gStats.XUnknown, "skipped_string_or_fp": gStats.XSkipped},
 		"solver_time_s":                 map[string]float64{"cvc5": round2(float64(gStats.TimeNs) / 1e9), "z3": round2(float64(gStats.XTimeNs) / 1e9)},
 		"load_and_ssa_build_s":          round2(loadS),
 		"explanation":                   "states = feasible symbolic paths of the real SSA explored to completion; transitions = symbolic branch decisions; obligations = vAssert queries (path condition AND NOT claim), discharged = answered unsat by cvc5 (z3 cross-check where it has an opinion)",
